@@ -10,7 +10,7 @@ TRUSTED = {
     'C04': ['X-STRUCT', 'X-STR', 'summary contracts: write_struct (deterministic function of code and value, instances proved under C06), Attribute.get_as_bytes / _make_attrs_bytes / make_item_body_bytes / _make_template_bytes summaries each proved separately in this property',
             'Attribute.inferred_representation_code is abstract (any code 1..27 or None, or an exception); _run_checks_and_set_defaults is abstract',
             'template taken from the first object: verified on item lists of length 0..2 (the function reads element 0 only)',
-            'attribute state type invariant: a non-multivalued attribute holds a scalar'],
+            'attribute state type invariant: a non-multivalued attribute holds a scalar (kept by Attribute.convert_value[multivalued=False,*], proved in this property; the constructor argument value= is internal)'],
     'C17': ['X-RE: python re semantics of the supported subset (classes, quantifiers, leading ^, trailing $, fullmatch/match/search); language equivalence decided by z3 string theory'],
     'C06': ['X-STRUCT: struct.Struct(fmt).pack for >B >H >I >b >h >i raises struct.error iff out of range else big-endian two\'s complement',
             'X-FLOAT: >f/>d pack is IEEE-754 (uninterpreted ieee32/ieee64; OverflowError for >f abstracted by a predicate)',
@@ -20,10 +20,18 @@ TRUSTED = {
     'C15': ['X-STRUCT: struct.Struct(>B >H).pack'],
     'C16': ['X-STR: str.encode("ascii")', 'X-STRUCT'],
 }
+# cached_property values the engine takes as absent-or-consistent on objects given by a model.  Every OTHER cached_property read on such an
+# object forks: the cache may already hold a value computed in an earlier state of the object (write, change an attribute, write again),
+# so a contract over the current state fails unless the cached value is irrelevant.  Each entry here must name the open finding that
+# records the staleness of that cache.
+ASSUMED_CONSISTENT_CACHES = {
+    'obname': 'EFLRItem.obname is never invalidated: open finding C14 c14_stale_obname (witness findings/c14_stale_obname.py)',
+}
 ASSUMPTIONS = {
     '*': ['machine arithmetic: none - python ints are encoded as mathematical integers exactly',
           'termination is proved only where a loop variant is stated',
-          'exception messages and logging are not modelled'],
+          'exception messages and logging are not modelled',
+          'cached_property EFLRItem.obname is taken as absent or consistent with the current name/origin/copy number (its staleness is the open finding c14_stale_obname); any other cached_property is treated as possibly stale'],
     'C10': ['crash points are decided at flush returns (after ByteWriter.write_bytes returns); a torn OS write is out of scope',
             'float-valued output_chunk_size (integral floats) is not covered by the proof: only int sizes'],
 }
